@@ -234,6 +234,25 @@ class UpdateStatusFormula:
         return [field(self, 'minor_failure')]
 
 
+@contract('application:ApplicationStatus._get_process_status', props=['C15'])
+class GetProcessStatus:
+    """value of a process-name leaf: the process is up (running-like, or exited as expected) - same reading as the
+    statement's failure definition: down = FATAL, UNKNOWN, STOPPED, STOPPING or unexpectedly EXITED"""
+    raises = ()
+
+    def modifies(self):
+        return []
+
+    def pre_known(self, process_name):
+        """call sites (evaluate): a key of self.processes, or a name returned by _get_matches"""
+        return process_name in self.processes
+
+    def post_up(self, process_name, result):
+        p = self.processes[process_name]
+        return result == (disp(p) in (ProcessStates.STARTING, ProcessStates.BACKOFF, ProcessStates.RUNNING)
+                          or (disp(p) == ProcessStates.EXITED and p.expected_exit))
+
+
 @contract('application:ApplicationStatus.evaluate', props=['C15'])
 class Evaluate:
     """statement: 'the formula evaluated over process names and patterns with and/or/not/any/all. Evaluating a formula
